@@ -43,6 +43,9 @@ Kinds == <<
   E("mmo-mouse-macro", "MMO Gaming Device",             "/devices/pci0000:00/usb1/1-9/input/input22", "100013", MmoKeys),
   \* a Bluetooth LE keyboard: it reaches the kernel through uhid, so its sysfs path is under /devices/virtual/ but NOT under the
   \* virtual-input tree /devices/virtual/input/ - a real keyboard that has to be selected
+  \* a name with a non-ASCII character. "(R)" stands for the registered sign U+00AE: lib/e3.py puts the real character into the text and the
+  \* patterns the code under test sees and the placeholder back into what it returns (TLC's JSON I/O is not safe for non-ASCII strings)
+  E("nonascii-keyboard", "Microsoft Microsoft(R) 2.4GHz Transceiver v9.0", "/devices/pci0000:00/usb1/1-10/input/input26", "120013", FullKeys),
   E("ble-uhid-keyboard", "BLE Board 5.0",               "/devices/virtual/misc/uhid/0005:046D:B342.0007/input/input25", "120013", FullKeys)
 >>
 KindIds == 1..Len(Kinds)
@@ -83,13 +86,14 @@ Keyboardish(e) ==
 \* keyboard-like key maps, buttons, switches") and the repository's example hardware agrees.  For these a wrong class on
 \* either path is a violation of C16 ("only real keyboards ... every other keyboard-like device is"); for the constructed
 \* boundary kinds a difference from Keyboardish stays DRIFT.
-SureKeyboard == {"keyboard", "keyboard-noleds", "virtual-keyboard", "ble-uhid-keyboard"}
+SureKeyboard == {"keyboard", "keyboard-noleds", "virtual-keyboard", "ble-uhid-keyboard", "nonascii-keyboard"}
 SureNotKeyboard == {"gaming-mouse", "power-button", "video-bus", "cros-ec", "virtual-mouse", "mmo-mouse-macro"}
 
 \* exclude patterns and the names they match (glob semantics over the finite universe of names)
 AllNames == {NameOf(Kinds[i]): i \in KindIds}
 Patterns == <<"*Mouse*", "AT Translated Set 2 keyboard", "*", "totalmapper", "AT*", "*keyboard", "?T Translated Set 2 keyboard", "Nothing*", "*Keys", "Compact?Keys",
               "SINO WEALTH Gaming KB ", "SINO WEALTH Gaming KB", "*KB?", "* ",
+              "Microsoft Microsoft(R) 2.4GHz Transceiver v9.0", "*Microsoft(R)*", "*(R) 2.4GHz Transceiver v9.0",
               ""      \* the empty pattern matches exactly the empty name (an entry without an N: line)
               >>
 MatchSet(p) ==
@@ -108,5 +112,6 @@ MatchSet(p) ==
     [] p = "*KB?" -> {"SINO WEALTH Gaming KB "}
     [] p = "* " -> {"SINO WEALTH Gaming KB "}
     [] p = "" -> {""}
+    [] p \in {"Microsoft Microsoft(R) 2.4GHz Transceiver v9.0", "*Microsoft(R)*", "*(R) 2.4GHz Transceiver v9.0"} -> {"Microsoft Microsoft(R) 2.4GHz Transceiver v9.0"}
 Excluded(name, pats) == \E i \in 1..Len(pats): name \in MatchSet(pats[i])
 =============================================================================
